@@ -34,6 +34,19 @@ def render(p):
     return out or "this"
 
 
+def expand_multi(events):
+    """an event on the loop variable of `for (T* r : {&a, &b})` is one event on a and one on b"""
+    out = []
+    for ev in events:
+        p = ev.path
+        if p is not None and p and isinstance(p[0], tuple) and p[0][0] == "$multi":
+            for q in p[0][1]:
+                out.append(Event(q + tuple(p[1:]), ev.kind, ev.info, ev.guards, ev.chain, tuple(l for l in ev.loops if l != p[0][2])))
+        else:
+            out.append(ev)
+    return out
+
+
 class PathEnv:
     def __init__(self, F, fn, value_proxies=False):
         self.F = F
@@ -56,6 +69,12 @@ class PathEnv:
             k = n["k"]
             if k == "RangeFor":
                 v = n["var"]
+                mp = self._address_list(n["range"], order)
+                if mp is not None:
+                    # `T* const own[] = {&a, &b, &c}; for (T* r : own) use(r->f)` visits exactly a, b and c: the loop
+                    # variable stands for each of them (events on it are repeated per element, see expand_multi)
+                    self.alias[v["id"]] = (("$multi", mp, "each " + show(n["range"])),)
+                    continue
                 rp = self.path(n["range"])
                 if rp is not None:
                     self.alias[v["id"]] = rp + ("[*]",)
@@ -64,6 +83,40 @@ class PathEnv:
                     self._alias_decl(v)
             elif k in ("If", "While") and n.get("var"):
                 self._alias_decl(n["var"])
+
+    def _address_list(self, rng, order):
+        """paths of the objects a braced list of addresses / references names, when `rng` is such a list (directly, or a
+        local array / initializer_list that is defined once from one and never written), else None"""
+        def peel(e):
+            while is_node(e) and e["k"] in ("Cast", "Construct", "StdInitList") and (e.get("e") is not None or len(e.get("args", [])) == 1):
+                e = e["e"] if e.get("e") is not None else e["args"][0]
+            return e
+        e = peel(rng)
+        if is_node(e) and e["k"] == "Ref" and e.get("rk") == "local":
+            decl = None
+            for n in order:
+                if n["k"] == "Decl":
+                    for v in n.get("vars", []):
+                        if v["id"] == e["id"]:
+                            decl = v
+                if n["k"] == "Subscript" and is_node(n.get("base")) and peel(n["base"]) is not e and \
+                        peel(n["base"]).get("k") == "Ref" and peel(n["base"]).get("id") == e["id"]:
+                    return None  # the array is also indexed (possibly written) elsewhere
+            if decl is None or not is_node(decl.get("init")):
+                return None
+            e = peel(decl["init"])
+        if not (is_node(e) and e["k"] == "InitList" and e.get("inits")):
+            return None
+        out = []
+        for x in e["inits"]:
+            x = peel(x)
+            if not (is_node(x) and x["k"] == "Unary" and x["op"] == "&"):
+                return None
+            p = self.path(x["e"])
+            if p is None or p[0][0] != "this":
+                return None
+            out.append(p)
+        return tuple(out)
 
     def _alias_decl(self, v):
         t = v.get("ct") or v.get("t") or ""
@@ -625,7 +678,7 @@ class Summarizer:
                     if ms and not info.get("modesplit"):
                         info = dict(info, modesplit=fn["name"])
                     out.append(Event(np, ev.kind, info, g + ev.guards, site + ev.chain, lp + ev.loops))
-        return out
+        return expand_multi(out)
 
     STD_ALGOS = {"for_each", "transform", "any_of", "all_of", "none_of", "find_if", "find_if_not", "count_if", "copy_if", "remove_if"}
 
